@@ -72,7 +72,32 @@ func checkC09(c BytesCase, st *Stats) error {
 var propC09 = Register(Prop[BytesCase]{ID: "C09", Name: "C09", Check: checkC09})
 
 func genC09(t *rapid.T) BytesCase {
-	switch rapid.IntRange(0, 6).Draw(t, "origin") {
+	switch rapid.IntRange(0, 7).Draw(t, "origin") {
+	case 7: // reference structures: a few type names defined in terms of each other (rings, self-reference, dangling
+		// names, through every type constructor), then used under every constructor - whatever follows references must end
+		names := []string{"A", "B", "C", "Dd", "string", "Undefined"}
+		ref := func(label string) string {
+			n := rapid.SampledFrom(names).Draw(t, label)
+			tmpl := rapid.SampledFrom([]string{"%s", "%s", "?%s", "[]%s", "[string]%s", "(x: %s)", "(x: ?%s, y: []%s)", "?[]%s", "[]?%s", "? %s"}).Draw(t, label+"c")
+			return strings.ReplaceAll(tmpl, "%s", n)
+		}
+		var sb strings.Builder
+		sb.WriteString("interface a.b\n")
+		for k := rapid.IntRange(1, 5).Draw(t, "ntypes"); k > 0; k-- {
+			fmt.Fprintf(&sb, "type %s %s\n", rapid.SampledFrom(names[:4]).Draw(t, "tname"), ref("rhs"))
+		}
+		for k := rapid.IntRange(0, 3).Draw(t, "nuses"); k > 0; k-- {
+			r := ref("use")
+			switch rapid.IntRange(0, 2).Draw(t, "ukind") {
+			case 0:
+				fmt.Fprintf(&sb, "method F%d(x: %s) -> (y: %s)\n", k, r, r)
+			case 1:
+				fmt.Fprintf(&sb, "error E%d (x: %s)\n", k, r)
+			default:
+				fmt.Fprintf(&sb, "method G%d() -> (y: %s)\n", k, r)
+			}
+		}
+		return mkBytesCase([]byte(sb.String()), "reference-structure", false)
 	case 0: // random bytes incl. NUL and invalid UTF-8
 		b := rapid.SliceOfN(rapid.Byte(), 0, 200).Draw(t, "bytes")
 		return mkBytesCase(b, "random-bytes", false)
@@ -216,6 +241,8 @@ func fuzzSeedsIDL() []string {
 		"interface a.b\nmethod F()->()", "interface a.b\nmethod F()->()\n#\ngarbage",
 		"interface a.b\nerror E\nmethod F(a: ?[](b: [string]int, c: (x, y))) -> ()\n",
 		"interface a.b\ntype T (a: int)\nmethod F(t: T) -> (t: ?T)\nerror E (t: []T)\n# end",
+		"interface a.b\ntype A A\ntype B C\ntype C ?B\nmethod F(x: ?A, y: []B) -> (z: [string]C)\n",
+		"interface a.b\n# doc\nerror E\n\n# d\nerror F\nmethod G()->()\n",
 	}
 	// inputs from the repository's idl_test.go and generator_test.go (string literals)
 	for _, f := range []string{"/repo/varlink/idl/idl_test.go", "/repo/cmd/varlink-go-interface-generator/generator_test.go",
